@@ -229,11 +229,72 @@ def run(res, tier, seed, search=False, have_drv=True):
     res.cov["modes"] = modes
     res.cov["traces_validated_against_impl"] = len(cases) if model is not None else 0
     res.cov["samples"] = [{"case": cases[j], "impl_trace": impl[j][:14]} for j in (0, len(cases) // 2, len(cases) - 1)]
+    # a wake-up must also end a wait that a timer limits (a miss must reproduce 3 times to count)
+    tcases = timed_cases() * (1 if tier == "quick" else 4)
+    ttraces = run_timed(tcases)
+    res.cov["evaluations"] += len(tcases)
+    res.cov["timed_wakeups"] = len(tcases)
+    for c, tr in zip(tcases, ttraces):
+        bad = judge_timed(c, tr)
+        if bad and all(judge_timed(c, run_timed([c])[0]) for _ in range(2)):
+            res.cov["impl_monitor_failures"] += 1
+            if len(res.violations) < 3:
+                d = C.write_replay(res.pid, {"case.timing": "\n".join(c) + "\n", "impl.obs": "\n".join(tr) + "\n",
+                                              "verdict.txt": "\n".join(bad) + "\n(reproduced 3 times)\n"})
+                res.violations.append(("C11 on the real loop: %s   [%s]" % (bad[0], " ; ".join(c[1:-1])), os.path.join(d, "case.timing")))
     if res.violations:
         res.broken = []
 
 
+# --- wake-ups against a wait that a timer limits (wall clock; real threads) ------------------------------------
+
+MS = 1_000_000
+TIMED = [("none", ["400"], 50), ("600", ["400"], 50), ("none", ["300", "500"], 40), ("900", ["300"], 60),
+         ("none", ["400 rearm 400"], 50)]
+
+
+def timed_cases():
+    out = []
+    for i, (timeout, timers, waker) in enumerate(TIMED):
+        out.append(["case w%d" % i, "timeout " + timeout] + ["timer " + x for x in timers] + ["waker %d" % waker, "end"])
+    return out
+
+
+def run_timed(cases):
+    text = "\n".join("\n".join(c) for c in cases) + "\n"
+    rc, out, err = C.run_vh("timing", text, timeout=600)
+    if rc != 0:
+        raise RuntimeError("vh timing failed: " + err[-300:])
+    return split_cases(out.splitlines())
+
+
+def judge_timed(case, trace):
+    """LoopSignal::wakeup() from another thread `waker` ms into a dispatch whose wait is limited by a timer that is
+    not due yet: the dispatch returns then (not when the timer fires), and the timer has not fired."""
+    waker = next(int(l.split()[1]) for l in case if l.startswith("waker"))
+    bad = []
+    for l in trace:
+        if not l.startswith("disp "):
+            continue
+        f = dict(x.split("=") for x in l.split()[2:])
+        el, fired = int(f["elapsed"]), int(f["fired"])
+        due = None if f["due"] == "none" else int(f["due"])
+        if due is not None and due < (waker + 100) * MS:
+            continue        # the timer itself is (nearly) due: nothing to tell apart
+        if not ((waker - 2) * MS <= el <= (waker + 250) * MS) or fired:
+            bad.append("dispatch %s: wakeup() came %d ms into a wait limited by a timer due in %s ns; the dispatch returned after %d ns, %d timer(s) fired"
+                       % (l.split()[1], waker, f["due"], el, fired))
+    return bad
+
+
 def replay(path):
+    if path.endswith(".timing"):
+        case = [l.rstrip("\n") for l in open(path) if l.strip()]
+        t = run_timed([case])[0]
+        bad = judge_timed(case, t)
+        print("\n".join(t))
+        print("C11 (timed):", bad)
+        return 1 if bad else 0
     case = [l.rstrip("\n") for l in open(path) if l.strip()]
     impl, model = run_all([case])
     v = spec_c11(case, impl[0])
